@@ -317,7 +317,7 @@ def contract(target, property=None, **kw):  # noqa: A002
         ns.update(kw)
         ns["target"] = target
         ns["property"] = property
-        for fn in ("requires", "ensures", "on_raise", "pure_spec", "native_call", "make_self", "observe", "effects", "invariant", "ensures_callee", "on_raise_callee", "effects_raise", "setup", "call_real", "missing_field", "comprehension_sum", "decode_model", "decreases", "binop"):
+        for fn in ("requires", "ensures", "on_raise", "pure_spec", "native_call", "make_self", "observe", "effects", "invariant", "ensures_callee", "on_raise_callee", "effects_raise", "setup", "call_real", "missing_field", "comprehension_sum", "decode_model", "decreases", "binop", "cover_witness"):
             if fn in ns and inspect.isfunction(ns[fn]):
                 ns[fn] = staticmethod(ns[fn])
         C = type(cls.__name__, (Contract,), ns)
@@ -597,6 +597,7 @@ class VerifyTask:
         res.property = self.c.property
         res.source_hash = self.ref.source_hash()
         ex = Explorer(self.config)
+        ex.cover_witness = getattr(self.c, "cover_witness", None)  # see State.cover
         t0 = time.time()
         try:
             ex.run(lambda st: self.body(st, ex))
